@@ -11,6 +11,7 @@ BASE_VERIFY_FNS = ["verify_label", "verify_existence", "verify_existence_with_va
                    "verify_membership", "verify_nonmembership", "NodeLabel.value", "NodeLabel.root", "NodeLabel.new"]
 
 TN = "TreeNodeWithPreviousValue."
+SM = "StorageManager."
 PROPS = {
     "C13": {
         "verus": [("tree_node", [TN + "determine_node_to_get", TN + "get_appropriate_tree_node_from_storage"])],
@@ -33,10 +34,35 @@ PROPS = {
                     "collision resistance for 'replacing any root hash makes verification fail'"],
         "assumed": ["attacker-supplied epochs are < u64::MAX and the epoch list is shorter than usize::MAX (overflow guards)"],
     },
+    "C15": {
+        "verus": [("manager", [SM + "get_user_state", SM + "compare_db_and_transaction_records", SM + "commit_transaction", SM + "is_transaction_active",
+                               SM + "tic_toc", SM + "increment_metric", "DbRecord.transaction_priority"])],
+        "scope": "partial: inside a transaction a single user-state query returns the pending record exactly when it must win against the database answer for that flag "
+                 "(SpecificVersion/SpecificEpoch: always; LeqEpoch/MaxEpoch: pending epoch >= database epoch; MinEpoch: <=), the database answer otherwise, NotFound iff both are absent; "
+                 "commit hands the database exactly the drained log, only if its last record is the epoch record, and reports its size. Bulk versions query, get_user_data, "
+                 "batched gets and begin/rollback (state behind &self) are not decided.",
+        "trusted": ["StorageManager is a model struct (same field names; Arc<Db> -> opaque handle with the Database methods as stubs); Transaction / TimedCache / Database methods external",
+                    "Transaction::commit_transaction returns the log sorted by transaction_priority (closure/DashMap code outside the verifier)",
+                    "that 'pending wins' as specified equals the post-commit read relies on the well-formedness of the data stated in the property (versions increase with epochs)"],
+        "assumed": ["defect seen by reading, outside the claim: get_user_state_versions merges pending records using the returned version as an epoch (DESIGN D5)"],
+    },
+    "C20": {
+        "verus": [("manager", [SM + "tombstone_value_states", SM + "batch_set", SM + "tic_toc", SM + "increment_metric", SM + "is_transaction_active"]),
+                  ("verify_history", ["verify_single_update_proof", "key_history_verify"])],
+        "scope": "partial (frame + verifier opt-in): every record set tombstone_value_states hands to a write path consists only of value-state records that re-key an existing "
+                 "(label, epoch <= cut-off) state of that user with the same version, node label and username and an EMPTY value - no tree node, epoch record or other label is written; "
+                 "on the verifier side the value check is skipped only in AllowMissingValues mode for an empty value and the leaf's membership is still required. "
+                 "Histories with further publishes after tombstoning are not decided.",
+        "trusted": ["epoch hashes and audit proofs are functions of tree-node and epoch records only (the async proof generators are not under contract)",
+                    "StorageManager model struct as in C15; get_user_data outside a transaction returns the database's data (stub)"],
+        "assumed": [],
+    },
     "C11": {
-        "verus": [("tree_node", [TN + "determine_node_to_get", TN + "get_appropriate_tree_node_from_storage", TN + "write_to_storage", "TreeNode.write_to_storage", "lemma_rot"])],
+        "verus": [("tree_node", [TN + "determine_node_to_get", TN + "get_appropriate_tree_node_from_storage", TN + "write_to_storage", "TreeNode.write_to_storage", "lemma_rot"]),
+                  ("manager", [SM + "commit_transaction", SM + "tic_toc", SM + "increment_metric", "DbRecord.transaction_priority"])],
         "scope": "partial, record level: TreeNode::write_to_storage writes exactly {label, latest: self, previous: as-of(stored, epoch-1) or None when new}; rotation lemma: that record still "
-                 "serves the as-of-(E) node at E and serves the new node at E+1; readers select by target epoch. The crash-point quantifier over sets of records is not decided.",
+                 "serves the as-of-(E) node at E and serves the new node at E+1; readers select by target epoch; the batch a commit hands to the database is non-empty only with the epoch "
+                 "record last (else Err before any database write); Azks has the lowest commit priority. The crash-point quantifier over sets of records is not decided.",
         "trusted": ["T6 sequential semantics of async fns", "StorageManager::get/set external", "derived Clone is structural (companion)"],
         "assumed": [],
     },
